@@ -550,10 +550,11 @@ pub fn def(ctx: &Ctx) -> PropertyDef {
             ),
             Section::random(
                 "annealer",
-                ctx.cases(600, 12000),
+                ctx.cases(2000, 40000),
                 move || {
                     (
-                        graph_spec(max_n.min(16)),
+                        // mostly small graphs: an accepted move there often changes the width
+                        prop_oneof![3 => graph_spec(9), 1 => graph_spec(max_n.min(16))],
                         any::<u64>(),
                         0usize..=300,
                         prop_oneof![Just(5.0f64), 0.01f64..20.0],
